@@ -241,6 +241,15 @@ def main(modname, tier, seed, replay=None, extra_result_hook=None):
             break
     if extra_result_hook:
         extra_result_hook(res, ctx)
+    if hasattr(mod, "extra"):
+        # a campaign of the module that is not driven by Hypothesis (e.g. a coverage-guided fuzzer)
+        try:
+            mod.extra(res, ctx)
+        except Exception:
+            print("INFRA: extra campaign failed:\n" + traceback.format_exc()[-2000:])
+            res.extra["infra_errors"] = 1
+            res.write_evidence()
+            return 2
     listed = {f["id"]: f for f in ctx.known.for_property(mod.PID)}
     for k, n in sorted(res.known_hits.items()):
         what = listed.get(k, {}).get("what", "")
